@@ -3,6 +3,8 @@
    Only statements; proofs are in Proofs/MpsIndexP.v and Proofs/MpsFormP.v.  The numerical claims (QR/SVD results,
    Schmidt values) are checked by the oracle of harness/c07.py, not proved. *)
 From TenpyV Require Import Base.Prelude Model.MpsIndex Model.MpsForm Proofs.MpsIndexP Proofs.MpsFormP.
+From TenpyV Require Import Model.MpsDenote Proofs.MpsDenoteP.
+From TenpyV Require Import Model.Charge Model.Tensor Model.TensorOps Model.MpsProduct Proofs.MpsProductP.
 Open Scope Z_scope.
 
 (* infinite bc: site i lives at position i mod L of unit cell i div L; its left bond has the same address, its
@@ -47,6 +49,109 @@ Proof. exact theta_exponents. Qed.
 Theorem T07_window_infinite : forall st, st <> [] -> forall n i, exists ss, window false st i n = Some ss.
 Proof. exact window_infinite. Qed.
 
+(* ---- the form algebra with VALUES (Model/MpsDenote.v).  M = matrices for a fixed physical index (an abstract monoid),
+   sv b e = s_b^(e/2) a group homomorphism (Z,+) -> M for every bond b (the law at negative exponents = "no zero
+   singular values"; the cutoff pseudo-inverse of _scale_axis_B for a 2D S is not modelled).  A valued site is a site of
+   MpsForm.v plus its stored tensor; vget_B multiplies S^(new - LABEL) on each side exactly like get_B_act adds
+   (new - LABEL) to the exponents.  For EVERY history of form conversions (convert_form with any list of forms,
+   set_B(i, get_B(i, f), f) at any integer site index i, i.e. in any unit cell for infinite bc), any chain length, any
+   stored forms (also sites labelled None, which no conversion touches), if the labels are truthful at the start:
+     - forgetting the values, the history is the history of Model/MpsForm.v (the correspondence-checked model),
+     - the labels stay truthful and every stored tensor stays s^nuL Gamma s^nuR with the SAME Gamma,
+     - psi.get_B(i, f) returns the same tensor before and after, for every i and every full form f,
+     - hence the dense object of every window (product of get_B(j, 'B'), exponent exactly 1 on every bond between
+       and to the right of its sites) and of the whole chain / unit cell is unchanged.
+   psi.norm is never touched by these operations (it is not part of the model state). *)
+Theorem T07_convert_preserves_denotation :
+  forall (M : Type) (mul : M -> M -> M) (one : M) (sv : Z -> Z -> M),
+  (forall a b c : M, mul a (mul b c) = mul (mul a b) c) ->
+  (forall a : M, mul one a = a) -> (forall a : M, mul a one = a) ->
+  (forall b : Z, sv b 0 = one) ->
+  (forall b x y : Z, sv b (x + y) = mul (sv b x) (sv b y)) ->
+  forall (fin : bool) (ops : list fop) (st st' : vmps M),
+  Forall truthful (erase M st) ->
+  vrun_ops M mul sv fin ops st = Some st' ->
+  run_ops fin ops (erase M st) = Some (erase M st') /\
+  Forall truthful (erase M st') /\
+  (forall G : nat -> M, denotes M mul sv fin G st -> denotes M mul sv fin G st') /\
+  (forall (i : Z) (f : form), vget_B_at M mul sv fin st' i (full f) = vget_B_at M mul sv fin st i (full f)) /\
+  (forall (i : Z) (n : nat), window_den M mul sv fin st' i n = window_den M mul sv fin st i n) /\
+  chain_den M mul sv fin st' = chain_den M mul sv fin st.
+Proof. exact convert_preserves_denotation. Qed.
+
+(* every stored chain has Gammas (this is where the inverse scalings are needed) *)
+Theorem T07_denotes_exists :
+  forall (M : Type) (mul : M -> M -> M) (one : M) (sv : Z -> Z -> M),
+  (forall a b c : M, mul a (mul b c) = mul (mul a b) c) ->
+  (forall a : M, mul one a = a) -> (forall a : M, mul a one = a) ->
+  (forall b : Z, sv b 0 = one) ->
+  (forall b x y : Z, sv b (x + y) = mul (sv b x) (sv b y)) ->
+  forall (fin : bool) (st : vmps M), exists G : nat -> M, denotes M mul sv fin G st.
+Proof. exact denotes_exists. Qed.
+
+(* on canonically labelled sites get_B(i, (f1, f2)) IS s^f1 Gamma s^f2 whatever the stored form is, with the bonds
+   bondL p = p, bondR p = p+1 (finite) resp. (p+1) mod L (infinite: the right bond of the last site is bond 0 of the
+   next cell), and the window object is Gamma s Gamma s ... (gamma_window) *)
+Theorem T07_get_B_closed_form :
+  forall (M : Type) (mul : M -> M -> M) (one : M) (sv : Z -> Z -> M),
+  (forall a b c : M, mul a (mul b c) = mul (mul a b) c) ->
+  (forall a : M, mul one a = a) -> (forall a : M, mul a one = a) ->
+  (forall b : Z, sv b 0 = one) ->
+  (forall b x y : Z, sv b (x + y) = mul (sv b x) (sv b y)) ->
+  forall (fin : bool) (G : nat -> M) (st : vmps M) (i : Z) (p : nat) (f : form),
+  Forall canonical (erase M st) -> denotes M mul sv fin G st ->
+  site_pos fin (erase M st) i = Some p -> (p < length st)%nat ->
+  vget_B_at M mul sv fin st i (full f) =
+    Some (mul (mul (sv (bondL p) (fst f)) (G p)) (sv (bondR fin (vlen M st) p) (snd f))).
+Proof. exact get_B_closed_form. Qed.
+
+Theorem T07_window_den_closed :
+  forall (M : Type) (mul : M -> M -> M) (one : M) (sv : Z -> Z -> M),
+  (forall a b c : M, mul a (mul b c) = mul (mul a b) c) ->
+  (forall a : M, mul one a = a) -> (forall a : M, mul a one = a) ->
+  (forall b : Z, sv b 0 = one) ->
+  (forall b x y : Z, sv b (x + y) = mul (sv b x) (sv b y)) ->
+  forall (fin : bool) (G : nat -> M) (st : vmps M),
+  Forall canonical (erase M st) -> denotes M mul sv fin G st -> 0 < vlen M st ->
+  forall (n : nat) (i : Z), (0 < n)%nat -> (fin = true -> 0 <= i /\ i + Z.of_nat n <= vlen M st) ->
+  window_den M mul sv fin st i n = Some (gamma_window M mul sv one fin (vlen M st) G i n).
+Proof. exact window_den_closed. Qed.
+
+(* the bonds used above are the ones MPS.get_SL(i) / get_SR(i) address (Model/MpsIndex.v) *)
+Theorem T07_bond_address : forall (fin : bool) (st : mps) (i : Z) (p : nat),
+  0 < len st -> site_pos fin st i = Some p ->
+  exists c c' : Z, to_valid_bond_index fin (len st) i true = Some (bondL p, c) /\
+                   to_valid_bond_index fin (len st) i false = Some (bondR fin (len st) p, c').
+Proof. exact bond_address. Qed.
+
+(* the values never make a conversion fail that the form model accepts *)
+Theorem T07_convert_progress :
+  forall (M : Type) (mul : M -> M -> M) (sv : Z -> Z -> M) (fin : bool) (op : fop) (st : vmps M) (r : mps),
+  is_conv op = true -> apply_op fin op (erase M st) = Some r ->
+  exists st' : vmps M, vapply_op M mul sv fin op st = Some st'.
+Proof. exact vapply_progress. Qed.
+
+(* ---- from_product_state at the level of charges (Model/MpsProduct.v; integer local states, any number of sites,
+   any ChargeInfo with mods >= 1, any site legs, any chargeL), both for finite/segment (fin = true) and infinite bc:
+   one tensor per site with legs (vL, site.leg, vR), its single block at (0, block of the chosen state, 0); every
+   tensor is well-formed (WF of Model/Tensor.v: in particular the charge rule, with qtotal 0 for finite bc), all bond
+   dimensions are 1 with qconj +1 / -1; neighbouring bond legs are contractible (`linked`), for infinite bc also the
+   last right leg with the first left leg (after the gauge_total_charge of the last tensor); and
+   get_total_charge (finite: only_physical_legs=True; infinite: the plain sum of the qtotal) is the sum of the
+   charges of the chosen local states, make_valid'ed.  The model is replayed against MPS.from_product_state in the
+   correspondence stream `product` of harness/c07.py (Model/MpsProductCheck.v). *)
+Theorem T07_product_state : forall fin ci chargeL sites,
+  valid_ci ci -> length chargeL = length ci -> sites <> [] ->
+  let Bs := from_product_state fin ci chargeL sites in
+  length Bs = length sites /\
+  map (fun B => (nth 1 (legs B) dleg, rows B)) Bs = map (fun s => (pleg s, [[0%nat; pq s; 0%nat]])) sites /\
+  Forall (fun B => WF ci B /\ site_shape B) Bs /\
+  linked ci Bs /\
+  (fin = false -> contractible ci (legR_of (last Bs darr)) (legL_of (hd darr Bs))) /\
+  (fin = true -> Forall (fun B => qtot B = zero_charge ci) Bs) /\
+  get_total_charge ci fin Bs = make_valid ci (qsum ci sites).
+Proof. exact product_state_charges. Qed.
+
 (* hypotheses are satisfiable / the functions do something *)
 Definition ex_st : mps := [mkSite (Some fA) fA 2 1 2; mkSite (Some fC) fC 3 2 2; mkSite (Some fB) fB 2 2 1].
 Example ex_history :
@@ -59,9 +164,53 @@ Proof. vm_compute. reflexivity. Qed.
 Example ex_index : to_valid_bond_index false 3 (-1) false = Some (0, 0) /\ to_valid_site_index true 3 3 = None.
 Proof. vm_compute. split; reflexivity. Qed.
 
+(* values: M = Z x Z with (a, k) standing for a * 2^k (1x1 matrices over Z[1/2]), s_b = 4^(b+1), sv b e = 2^((b+1) e) *)
+Definition xmul (a b : Z * Z) : Z * Z := (fst a * fst b, snd a + snd b).
+Definition xsv (b e : Z) : Z * Z := (1, (b + 1) * e).
+Example ex_monoid_laws :
+  (forall a b c, xmul a (xmul b c) = xmul (xmul a b) c) /\ (forall a, xmul (1, 0) a = a) /\ (forall a, xmul a (1, 0) = a) /\
+  (forall b, xsv b 0 = (1, 0)) /\ (forall b x y, xsv b (x + y) = xmul (xsv b x) (xsv b y)).
+Proof.
+  unfold xmul, xsv. repeat split; intros; try destruct a as [a1 a2]; cbn [fst snd]; f_equal; lia.
+Qed.
+(* Gamma = 3, 5, 7 stored in the forms A, C, B of an infinite chain *)
+Definition ex_vst : vmps (Z * Z) :=
+  [(mkSite (Some fA) fA 2 1 2, (3, 2)); (mkSite (Some fC) fC 3 2 2, (5, 5)); (mkSite (Some fB) fB 2 2 1, (7, 2))].
+Example ex_denotes : denotes (Z * Z) xmul xsv false (fun p => nth p [(3, 0); (5, 0); (7, 0)] (1, 0)) ex_vst /\
+                     Forall truthful (erase (Z * Z) ex_vst).
+Proof.
+  split.
+  - intros p s H. destruct p as [|[|[|p]]]; cbn in H; try (destruct p; discriminate); injection H as <-; reflexivity.
+  - repeat constructor; intros f H; cbn in H; injection H as <-; reflexivity.
+Qed.
+Example ex_convert_history :
+  exists st', vrun_ops (Z * Z) xmul xsv false [OConvert [fG; fTh; fA]; OSetBScaled 4 fC; OSetBScaled (-1) fG] ex_vst = Some st' /\
+              map snd st' = [(3, 0); (5, 5); (7, 0)] /\
+              chain_den (Z * Z) xmul xsv false st' = Some (105, 12) /\ chain_den (Z * Z) xmul xsv false ex_vst = Some (105, 12) /\
+              window_den (Z * Z) xmul xsv false st' 2 3 = Some (105, 12).
+Proof. eexists. vm_compute. repeat split; reflexivity. Qed.
+
+(* product state: U(1) x Z_2 charges, spin-1/2-like legs, state up, up, down with chargeL = (3, 1) *)
+Definition ex_leg : leg := mkLeg [1%nat; 1%nat] [[1; 1]; [-1; 0]] 1.
+Definition ex_sites : list psite := [mkPsite ex_leg 0 0; mkPsite ex_leg 0 0; mkPsite ex_leg 1 0].
+Example ex_product_state :
+  valid_ci [1; 2] /\
+  map (fun B => (bch (legL_of B), bch (legR_of B), qtot B)) (from_product_state false [1; 2] [3; 1] ex_sites)
+    = [([[3; 1]], [[4; 0]], [0; 0]); ([[4; 0]], [[5; 1]], [0; 0]); ([[5; 1]], [[3; 1]], [1; 0])] /\
+  get_total_charge [1; 2] false (from_product_state false [1; 2] [3; 1] ex_sites) = [1; 0] /\
+  get_total_charge [1; 2] true (from_product_state true [1; 2] [3; 1] ex_sites) = [1; 0].
+Proof. split; [repeat constructor; lia|]. vm_compute. repeat split; reflexivity. Qed.
+
 Print Assumptions T07_index_infinite.
 Print Assumptions T07_index_infinite_periodic.
 Print Assumptions T07_index_finite_rejects.
 Print Assumptions T07_label_truthful.
 Print Assumptions T07_theta_exponents.
 Print Assumptions T07_window_infinite.
+Print Assumptions T07_convert_preserves_denotation.
+Print Assumptions T07_denotes_exists.
+Print Assumptions T07_get_B_closed_form.
+Print Assumptions T07_window_den_closed.
+Print Assumptions T07_bond_address.
+Print Assumptions T07_convert_progress.
+Print Assumptions T07_product_state.
